@@ -320,17 +320,36 @@ type Engine struct {
 	faultRead  int // the k-th Read call on any Get reader fails (1-based), 0 = never
 	reads      int
 	faultClass string // restrict read faults to this path class
+
+	// set when B is a *Dir: operations run through the repository's own file
+	// engine on the real directory (dir.go); one FileSystem per handle, like
+	// one per process
+	real storage.Engine
+	dir  *Dir
 }
 
 var _ storage.Engine = (*Engine)(nil)
 
 func New(b Backing, fileLike bool) *Engine {
-	return &Engine{B: b, FileLike: fileLike, Log: &Log{}}
+	e := &Engine{B: b, FileLike: fileLike, Log: &Log{}}
+	e.bindReal()
+	return e
 }
+
+func (e *Engine) bindReal() {
+	if d, ok := e.B.(*Dir); ok {
+		e.dir, e.real, e.FileLike = d, storage.NewFileSystem(), true
+	}
+}
+
+// Real reports whether this handle runs on the repository's file engine.
+func (e *Engine) Real() bool { return e.real != nil }
 
 // Fork returns a fresh handle (new "process") on the same backing store and log.
 func (e *Engine) Fork() *Engine {
-	return &Engine{B: e.B, FileLike: e.FileLike, Log: e.Log, Gate: e.Gate}
+	f := &Engine{B: e.B, FileLike: e.FileLike, Log: e.Log, Gate: e.Gate}
+	f.bindReal()
+	return f
 }
 
 // CrashAt arms the fail-stop injector: the k-th counted operation (1-based)
@@ -453,6 +472,9 @@ func (r *memReader) Close() error         { return nil }
 func (r *memReader) Size() (int64, error) { return r.size, nil }
 
 func (e *Engine) Get(ctx context.Context, u *storage.URI) (storage.Reader, error) {
+	if e.real != nil {
+		return e.realGet(ctx, u)
+	}
 	seq, done, crash, _ := e.begin(ctx, "get", u, 0)
 	defer done()
 	if crash {
@@ -526,6 +548,9 @@ func (w *putWriter) Close() error {
 }
 
 func (e *Engine) Put(ctx context.Context, u *storage.URI) (io.WriteCloser, error) {
+	if e.real != nil {
+		return e.realPut(ctx, u)
+	}
 	w := &putWriter{e: e, ctx: ctx, u: u}
 	if !e.FileLike {
 		if e.Crashed() {
@@ -543,6 +568,9 @@ func (e *Engine) Put(ctx context.Context, u *storage.URI) (io.WriteCloser, error
 }
 
 func (e *Engine) PutIfNotExists(ctx context.Context, u *storage.URI, b []byte) error {
+	if e.real != nil {
+		return e.realPutIfNotExists(ctx, u, b)
+	}
 	if !e.FileLike {
 		seq, done, crash, _ := e.begin(ctx, "pine", u, len(b))
 		defer done()
@@ -581,6 +609,9 @@ func (e *Engine) PutIfNotExists(ctx context.Context, u *storage.URI, b []byte) e
 }
 
 func (e *Engine) Delete(ctx context.Context, u *storage.URI) error {
+	if e.real != nil {
+		return e.realSimple(ctx, "delete", u, func(ru *storage.URI) error { return e.real.Delete(ctx, ru) })
+	}
 	seq, done, crash, _ := e.begin(ctx, "delete", u, 0)
 	defer done()
 	if crash {
@@ -595,6 +626,9 @@ func (e *Engine) Delete(ctx context.Context, u *storage.URI) error {
 }
 
 func (e *Engine) DeleteByPrefix(ctx context.Context, u *storage.URI) error {
+	if e.real != nil {
+		return e.realSimple(ctx, "delete-prefix", u, func(ru *storage.URI) error { return e.real.DeleteByPrefix(ctx, ru) })
+	}
 	_, done, crash, _ := e.begin(ctx, "delete-prefix", u, 0)
 	defer done()
 	if crash {
@@ -605,6 +639,11 @@ func (e *Engine) DeleteByPrefix(ctx context.Context, u *storage.URI) error {
 }
 
 func (e *Engine) Exists(ctx context.Context, u *storage.URI) (bool, error) {
+	if e.real != nil {
+		var ok bool
+		err := e.realSimple(ctx, "exists", u, func(ru *storage.URI) (err error) { ok, err = e.real.Exists(ctx, ru); return })
+		return ok, err
+	}
 	_, done, crash, _ := e.begin(ctx, "exists", u, 0)
 	defer done()
 	if crash {
@@ -614,6 +653,11 @@ func (e *Engine) Exists(ctx context.Context, u *storage.URI) (bool, error) {
 }
 
 func (e *Engine) Size(ctx context.Context, u *storage.URI) (int64, error) {
+	if e.real != nil {
+		var n int64
+		err := e.realSimple(ctx, "size", u, func(ru *storage.URI) (err error) { n, err = e.real.Size(ctx, ru); return })
+		return n, err
+	}
 	seq, done, crash, _ := e.begin(ctx, "size", u, 0)
 	defer done()
 	if crash {
@@ -629,6 +673,11 @@ func (e *Engine) Size(ctx context.Context, u *storage.URI) (int64, error) {
 }
 
 func (e *Engine) List(ctx context.Context, u *storage.URI) ([]storage.Info, error) {
+	if e.real != nil {
+		var infos []storage.Info
+		err := e.realSimple(ctx, "list", u, func(ru *storage.URI) (err error) { infos, err = e.real.List(ctx, ru); return })
+		return infos, err
+	}
 	seq, done, crash, _ := e.begin(ctx, "list", u, 0)
 	defer done()
 	if crash {
